@@ -141,33 +141,55 @@ def render(case):
             out.append("[ molmeta ]")
             for key, value in link["molmeta"].items():
                 out.append("%s %s" % (key, json.dumps(value)))
-        if link.get("atoms"):
-            out.append("[ atoms ]")
-            for key, attrs in link["atoms"]:
-                out.append("%s %s" % (key, _jattrs(attrs)))
+        # the sections of one link definition, by default in the order the shipped libraries use; a case may ask for
+        # another order (`section_order`: a permutation of these names) — the definition is the same
+        sections = {}
+        # `inline_atoms`: the attributes of a link atom are written behind its FIRST mention in an interaction line
+        # instead of in an `[ atoms ]` section (both spellings are in the shipped libraries); atoms that no
+        # interaction mentions stay in `[ atoms ]`
+        inline = {}
+        if link.get("inline_atoms") and not any(" " in a for _s, ats, _p, _m in link.get("ixns", []) for a in ats):
+            mentioned = {a for _s, ats, _p, _m in link.get("ixns", []) for a in ats}
+            inline = {key: attrs for key, attrs in link.get("atoms", []) if key in mentioned and attrs}
+        listed = [(key, attrs) for key, attrs in link.get("atoms", []) if key not in inline]
+        if listed:
+            sec = sections.setdefault("atoms", [])
+            sec.append("[ atoms ]")
+            for key, attrs in listed:
+                sec.append("%s %s" % (key, _jattrs(attrs)))
         last = None
+        todo_inline = dict(inline)
         for section, atoms, params, meta in link.get("ixns", []):
+            sec = sections.setdefault("ixns", [])
             if section != last:
-                out.append("[ %s ]" % section)
+                sec.append("[ %s ]" % section)
                 last = section
+            atoms = [("%s %s" % (a, _jattrs(todo_inline.pop(a)))) if a in todo_inline else a for a in atoms]
             line = " ".join(list(atoms) + (["--"] if section not in SECTION_NATOMS else []) + list(params))
             if meta:
                 line += " " + _jattrs(meta)
-            out.append(line)
+            sec.append(line)
         if link.get("edges"):
-            out.append("[ edges ]")
+            sec = sections.setdefault("edges", [])
+            sec.append("[ edges ]")
             for k1, k2, linktype in link["edges"]:
-                out.append("%s %s%s" % (k1, k2, "" if linktype is None else " " + _jattrs({"linktype": linktype})))
+                sec.append("%s %s%s" % (k1, k2, "" if linktype is None else " " + _jattrs({"linktype": linktype})))
         if link.get("nonedges"):
-            out.append("[ non-edges ]")
+            sec = sections.setdefault("nonedges", [])
+            sec.append("[ non-edges ]")
             for entry in link["nonedges"]:
                 k1, k2 = entry[0], entry[1]
                 extra = entry[2] if len(entry) > 2 and entry[2] else None
-                out.append("%s %s%s" % (k1, k2, "" if not extra else " " + _jattrs(extra)))
+                sec.append("%s %s%s" % (k1, k2, "" if not extra else " " + _jattrs(extra)))
         if link.get("patterns"):
-            out.append("[ patterns ]")
+            sec = sections.setdefault("patterns", [])
+            sec.append("[ patterns ]")
             for pattern in link["patterns"]:
-                out.append(" ".join("%s %s" % (key, _jattrs(attrs)) for key, attrs in pattern))
+                sec.append(" ".join("%s %s" % (key, _jattrs(attrs)) for key, attrs in pattern))
+        # `[ atoms ]` always comes first (vermouth rejects an `[ atoms ]` line for an atom that exists already)
+        order = [n for n in (link.get("section_order") or []) if n != "atoms"]
+        for name in ["atoms"] + order + [n for n in ("ixns", "edges", "nonedges", "patterns") if n not in order]:
+            out += sections.get(name, [])
     return dict(ff="\n".join(ff_lines) + "\n" if ff_lines else None,
                 itp="\n".join(itp_lines) + "\n" if itp_lines else None)
 
